@@ -1,1 +1,40 @@
-From CG Require Import Spec.Sets.
+(* Props/C06.v — C06: mask results are canonical.  Only statements, each closed by an
+   existing lemma, each followed by Print Assumptions. *)
+From CG Require Import Proofs.Defs Proofs.Compl.
+
+(* ~T over any window: for EVERY source stream sorted by start with positive-length events —
+   overlapping, nested, adjacent, duplicated, unbounded — the gaps are plain, inside the window,
+   sentinel-free (None exactly on an unbounded side), strictly separated (never touching), and
+   cover exactly the instants of the window the source does not cover. *)
+Theorem C06_complement_canonical_and_exact :
+  forall xs a b, wf_win a b -> Forall wf_ivl xs -> sorted_start xs ->
+    let out := compl_sweep xs a b in
+    (forall g, In g out -> good_gap (bnd_lo a) (bnd_hi b) g) /\
+    separatedP out /\
+    (forall t, bnd_lo a <= t < bnd_hi b -> covers out t = negb (covers xs t)).
+Proof. exact compl_sweep_spec. Qed.
+Print Assumptions C06_complement_canonical_and_exact.
+
+(* the same, through the executable oracle the check applies to the implementation's output *)
+Theorem C06_complement_oracle :
+  forall xs a b, wf_win a b -> Forall wf_ivl xs -> sorted_start xs ->
+    canonical a b (compl_sweep xs a b) = true.
+Proof. exact compl_sweep_canonical. Qed.
+Print Assumptions C06_complement_oracle.
+
+(* non-vacuity: a stream with nested, duplicated, touching and unbounded events meets the
+   hypotheses, and the sweep really returns the two maximal gaps *)
+Example C06_hypotheses_satisfiable :
+  let xs := [mkI None (Some 2) Plain; mkI (Some 1) (Some 9) (Rich 1); mkI (Some 3) (Some 4) (Rich 2);
+             mkI (Some 3) (Some 4) (Rich 3); mkI (Some 9) (Some 12) Plain; mkI (Some 20) None (Rich 4)] in
+  wf_win (Some (-5)) None /\ Forall wf_ivl xs /\ sorted_start xs /\
+  compl_sweep xs (Some (-5)) None = [mkI (Some 12) (Some 20) Plain].
+Proof.
+  cbv zeta. split; [|split; [|split]].
+  - unfold wf_win, NEG_INF, POS_INF; simpl. repeat split; intros; try congruence; try lia.
+    injection H as <-. lia.
+  - repeat constructor; unfold wf_ivl, fstart, fend, NEG_INF, POS_INF; simpl; lia.
+  - simpl. unfold fstart, NEG_INF; simpl. repeat split; intros y Hy;
+      repeat (destruct Hy as [<-|Hy]; [simpl; lia|]); try contradiction.
+  - vm_compute. reflexivity.
+Qed.
